@@ -186,16 +186,23 @@ def runtime_namespace(extra=None):
     def var_name(kind, idx):
         return _fmt('new_var_name', kind, idx)
 
+    _rx_cache = {}
+
     def _block_rx():
+        if 'rx' not in _rx_cache:
+            _rx_cache['rx'] = _re.compile(_block_rx_text(), _re.S)
+        return _rx_cache['rx']
+
+    def _block_rx_text():
         return '^' + ''.join(_re.escape(p[1]) if p[0] == 'lit' else '(.*)' if p[0] == 'kind' else '([0-9]+)'
                              for p in _shape_of('new_block_name')) + '$'
 
     def gen_index(n):
-        m = _re.match(_block_rx(), str(n), _re.S)
+        m = _block_rx().match(str(n))
         return int(m.group(2)) if m and str(int(m.group(2))) == m.group(2) else -1
 
     def is_generated(n, kind):
-        m = _re.match(_block_rx(), str(n), _re.S)
+        m = _block_rx().match(str(n))
         return bool(m) and m.group(1) == kind and str(int(m.group(2))) == m.group(2)
 
     def dominates(entries, preds, a, n):
